@@ -5,6 +5,7 @@ helper lemmas are in Lemmas.lean / ChainLemmas.lean.
 import BV.C01.Lemmas
 import BV.C01.Loops
 import BV.C01.ChainUnique
+import BV.C01.ChainComplete
 import BV.Generated.C01
 import BV.C09.Model
 namespace BV.C01
@@ -174,6 +175,38 @@ theorem stored_complete_partial (bs : List (Blk β)) (O : Oracle β) (b : Blk β
   cases hf : n.failed with
   | false => rfl
   | true => have := (hi'.failedOk n hn hf).2; rw [hconn] at this; cases this
+
+/-- The invalid-ancestor mark is sound: it is only ever put on a node one of whose ancestors really fails the
+    connect-stage check on its own ancestors. -/
+theorem invalid_ancestor_sound (bs : List (Blk β)) (O : Oracle β) (n : Node β)
+    (hn : n ∈ (run O g bs).nodes) (hia : n.invalidAnc = true) : HasBad O n.anc :=
+  run_invA O g bs n hn hia
+
+/-- Every block that satisfies the rules is accepted: in every reachable state, a new block whose parent is
+    indexed and which — like each of its ancestors — satisfies every rule on its own ancestors is never rejected
+    by `ProcessBlock` (it is connected or kept as a side-chain block; which of the two is chain selection, C02). -/
+theorem valid_block_accepted (hD : ContextFree D) (bs : List (Blk β)) (b : Blk β) (p : Node β)
+    (hnew : lookup (run (oracleOf D) g bs) b.hash = none)
+    (hno : (run (oracleOf D) g bs).orphans.any (fun o => o.hash == b.hash) = false)
+    (hp : lookup (run (oracleOf D) g bs) b.parent = some p)
+    (hv : AllValid D g (b :: p.blk :: p.anc)) :
+    (step (oracleOf D) (run (oracleOf D) g bs) b).2 = .mainChain ∨
+    (step (oracleOf D) (run (oracleOf D) g bs) b).2 = .sideChain := by
+  have hc := chainOk_of_allValid D hD g _ hv
+  have hi := run_inv (oracleOf D) g bs
+  have ha := run_invA (oracleOf D) g bs
+  have acc := accept_complete (oracleOf D) g hi ha hnew hp hc
+  have hs : (oracleOf D).sane b = true := by
+    rcases hc with ⟨h, _⟩ | ⟨h, _⟩
+    · cases h
+    · exact h
+  unfold step
+  rw [hnew, hno, hp]
+  simp only [Option.isSome_none, Bool.or_self, Bool.false_eq_true, if_false, hs, Bool.not_true,
+    Option.isNone_some]
+  rcases acc with h | h
+  · rw [h]; left; rfl
+  · rw [h]; right; rfl
 
 end chain
 
